@@ -74,16 +74,27 @@ def fresh(run, case):
     return k
 
 
-def observe_store(run, kconf, case, names, info, wdep=False):
+def observe_store(run, kconf, case, names, info, wdep=False, mode=0):
+    """mode 0: values are read before anything is written; mode 1: write_config() comes first; mode 2:
+    write_min_config() comes first (the writers must not depend on somebody having evaluated the options)."""
     d = run.scratch
     p1, p2, pm = os.path.join(d, "sdk1"), os.path.join(d, "sdk2"), os.path.join(d, "sdkmin")
     for p in (p1, p2, pm):
         if os.path.exists(p):
             os.unlink(p)
-    vals = [kconf.syms[n].str_value for n in names]
+    tm_first = None
+    if mode == 2:
+        kconf.write_min_config(pm, labels=False, normalize_unset=False)
+        with open(pm, newline="") as f:
+            tm_first = f.read()
+        os.unlink(pm)
+    if mode == 0:
+        vals = [kconf.syms[n].str_value for n in names]
     kconf.write_config(p1, save_old=False, write_deprecated=wdep)
     with open(p1, newline="") as f:
         t1 = f.read()
+    if mode != 0:
+        vals = [kconf.syms[n].str_value for n in names]
     k2 = fresh(run, case)
     k2.load_config(p1)
     quiet = report_quiet(k2)
@@ -96,10 +107,13 @@ def observe_store(run, kconf, case, names, info, wdep=False):
     variants = []
     for labels in (False, True):
         for norm in (False, True):
-            kconf.write_min_config(pm, labels=labels, normalize_unset=norm)
-            with open(pm, newline="") as f:
-                tm = f.read()
-            os.unlink(pm)
+            if tm_first is not None and not labels and not norm:
+                tm = tm_first
+            else:
+                kconf.write_min_config(pm, labels=labels, normalize_unset=norm)
+                with open(pm, newline="") as f:
+                    tm = f.read()
+                os.unlink(pm)
             lines = parse_sdkconfig(tm, info)
             k3 = fresh(run, case)
             kc.write_text(pm, tm)
@@ -153,7 +167,7 @@ def build_case(run, item, rng, cap):
     for asg in ktree.assignments(vars_):
         evalcheck.apply_assignment(kconf, info, vars_, asg)
         try:
-            obs, _ = observe_store(run, kconf, case, names, info)
+            obs, _ = observe_store(run, kconf, case, names, info, mode=n % 3)
             obs["err"] = False
         except Exception as e:  # the implementation raised: a violation, reported by the caller
             import traceback
